@@ -594,7 +594,13 @@ func (s *AbsfsNFS) CreateWithContext(ctx context.Context, dir *NFSNode, name str
 	if s.dirCache != nil {
 		s.dirCache.Invalidate(dir.path)
 	}
-	return s.Lookup(path)
+	node, err := s.Lookup(path)
+	if err != nil {
+		// The caller applies ownership only on success: do not leave the new file behind
+		s.fs.Remove(path)
+		return nil, err
+	}
+	return node, nil
 }
 
 // Remove implements the REMOVE operation
@@ -983,7 +989,13 @@ func (s *AbsfsNFS) Symlink(dir *NFSNode, name string, target string, attrs *NFSA
 	if s.dirCache != nil {
 		s.dirCache.Invalidate(dir.path)
 	}
-	return s.Lookup(path)
+	node, err := s.Lookup(path)
+	if err != nil {
+		// The caller applies ownership only on success: do not leave the new symlink behind
+		s.fs.Remove(path)
+		return nil, err
+	}
+	return node, nil
 }
 
 // Readlink implements the READLINK operation
